@@ -25,6 +25,8 @@ package main
 
 import (
 	"fmt"
+	"os"
+	"strconv"
 	"sort"
 	"strings"
 	"sync"
@@ -39,9 +41,22 @@ func init() { register("c17", runC17) }
 
 func runC17(e *Env) {
 	e.R.Rule = "(b) every interleaving, at mutex granularity, of W workers' take(nextChunkToSend)/finish(markChunkDone)/poll(trySendEnd) steps with the external steps V1 (verifyPending stored), V2 (verdict stored) and P (plan stored; V1 first, then V2 and P in either order) over the real sendFileState, for every chunk count n, bitmap, verification point (incl. none) and verification outcome (off/right/wrong) plus the no-report case; enumerated by re-execution (DFS over schedules; interchangeable idle workers are not distinguished and a worker does not repeat a take+poll cycle that changed nothing). Bound: quick n<=3, W<=2; thorough n<=4, W<=3; the bound is enumerated completely in each tier. (a) seeded traces of the real SendManifestMultiStream over loopback QUIC against a scripted receiver (1-3 files incl. empty ones, <=6 chunks, <=3 streams, report at once / inside the grace / after the grace / never, any bitmap, verification chunk, right or wrong hash, hold at send.verify.beforeHash, jitter at send.chunk.beforeFrame), judged per file from the hook event order. (c) seeded random Add/Next/Remove orders on the real HybridScheduler. distinct = (b) input x worker count x placement of the external steps among the takes x deciding step; (a) distinct per-file hook event orders; (c) distinct operation orders"
-	c17PartB(e)
-	c17PartA(e)
-	c17PartC(e)
+	// VERIF_C17_PARTS=abc (development aid): run only the listed parts; the minimum-observation
+	// requirements of the parts that ran still apply
+	parts := os.Getenv("VERIF_C17_PARTS")
+	if parts == "" {
+		parts = "bac"
+	}
+	for _, p := range parts {
+		switch p {
+		case 'b':
+			c17PartB(e)
+		case 'a':
+			c17PartA(e)
+		case 'c':
+			c17PartC(e)
+		}
+	}
 }
 
 // ---------------------------------------------------------------------------
@@ -577,6 +592,12 @@ func c17PartB(e *Env) {
 		return
 	}
 	maxN, maxW := e.Pick(3, 4), e.Pick(2, 3)
+	if v, err := strconv.Atoi(os.Getenv("VERIF_C17_MAXN")); err == nil && v > 0 { // development aid; a reduced bound fails the requirement below
+		maxN = v
+	}
+	if v, err := strconv.Atoi(os.Getenv("VERIF_C17_MAXW")); err == nil && v > 0 {
+		maxW = v
+	}
 	inputs := c17Inputs(maxN)
 	type job struct {
 		in c17In
